@@ -140,7 +140,8 @@ def check_date_forms(rep):
         d = datetime.date.fromisoformat(ds)
         base_p, base_f = harness.fresh_env(d)
         want = (RP.digest(base_p, skip_datum=False), _fun_table(base_f))
-        forms = {"iso-string": ds, "string-with-time": ds + " 00:00:00", "string-noon": ds + " 12:30"}  # documented forms: int, str, datetime.date
+        forms = {"iso-string": ds, "string-with-time": ds + " 00:00:00", "string-noon": ds + " 12:30",
+                 "string-with-utc-offset-after-midnight": ds + "T00:30:00+02:00", "string-with-utc-offset-before-midnight": ds + "T23:30:00-05:00"}  # documented forms: int, str, datetime.date
         if d.month == 1 and d.day == 1:
             forms["int-year"] = d.year
         for name, val in forms.items():
